@@ -47,6 +47,16 @@ def check(ctx):
                     'compare_item_names laws on three names of different lengths over {a,b,0,1,2} (contains a2 / a10 / a1b)')
     ctx.native_enum('value-compare-string-triples', dict(module='chardata', check='cmp_strings_sep', alphabet=b'0129.\xff', maxlen=9 if thorough else 8),
                     'CharacterData::cmp laws on three String values of different lengths over {0,1,2,9,.} (numeric-looking and other texts)')
+    # the comparison sort is keyed by: <Element as Ord>::cmp against its documented chain; order laws as a lemma over the chain
+    from contracts import elemcmp
+    try:
+        ctx.verus_unit(elemcmp.make_unit(ctx.scratch.dir), finder=None)
+    except Exception as e:
+        from vxlib.rustsrc import Lost as _Lost
+        if isinstance(e, _Lost):
+            ctx.undecided.append('elemcmp reason=lost anchor: %s' % e)
+        else:
+            raise
     # the sort of one node: unchanged where reordering is not permitted, otherwise a permutation of the element children in the order of
     # the file version (unit sortnode = ElementRaw::sort over the node reading of unit insertrange)
     from contracts import insertrange
@@ -139,6 +149,6 @@ def check(ctx):
             ctx.add(Obligation(ctx.prop, name, 'native-eval', 'bounded', 'discharged', seconds=secs, bound=bound,
                                detail='after Element::sort the children are in the specification order of the file version (pairwise oracle), and sorting twice equals sorting once [%s]' % last))
     return ctx.finish(
-        explanation='Unit sortnode: Verus proves on the real text of ElementRaw::sort, over the node reading of unit insertrange (content as a Vec of handles, the recursive sort of a child and std sort_by as leaves -- sort_by ASSUMED to return a permutation ordered by the key) that nothing moves where reordering is not permitted (character / mixed content, ordered containers, fewer than two children), and that otherwise the new content consists of exactly the old element children, permuted, in the order of their positions in the specification of the file version (the property whose violation was defect 992d4fd). `sort` is sort_by over Element::cmp, a lexicographic chain; "result independent of the previous order" and "never fails" need every link to be a total preorder consistent with equality. Complete Kani harnesses (all u64 / all f64 bit patterns, concrete kinds) discharge the laws for CharacterData::cmp on every kind triple CBMC can carry; the item-name link and the API-level statement are checked on small sibling sets natively (bounded). That sort only permutes, skips ordered containers and keeps indexes intact is element-graph code and not under contract.',
+        explanation='Unit elemcmp: Verus proves on the real text of <Element as Ord>::cmp that it computes the documented chain ecmp (element name, INDEX, item name, definition reference, DEST, then content and attributes) over an abstract key of the handle, and proves lemma_ecmp_laws: on elements with the same presence of item name and definition reference the chain is reflexive, antisymmetric and transitive, given that the content/attribute comparison is a total preorder (induction hypothesis, assumed), str::cmp is a total order and compare_item_names obeys the laws proved in unit cmp; without the presence condition the chain is not transitive in general (items 3 and 4 are skipped unless both sides have the key). Unit sortnode: Verus proves on the real text of ElementRaw::sort, over the node reading of unit insertrange (content as a Vec of handles, the recursive sort of a child and std sort_by as leaves -- sort_by ASSUMED to return a permutation ordered by the key) that nothing moves where reordering is not permitted (character / mixed content, ordered containers, fewer than two children), and that otherwise the new content consists of exactly the old element children, permuted, in the order of their positions in the specification of the file version (the property whose violation was defect 992d4fd). `sort` is sort_by over Element::cmp, a lexicographic chain; "result independent of the previous order" and "never fails" need every link to be a total preorder consistent with equality. Complete Kani harnesses (all u64 / all f64 bit patterns, concrete kinds) discharge the laws for CharacterData::cmp on every kind triple CBMC can carry; the item-name link and the API-level statement are checked on small sibling sets natively (bounded). That sort only permutes, skips ordered containers and keeps indexes intact is element-graph code and not under contract.',
         checker_cmd='cargo kani --harness cmp_laws_*; vxnative api sort3 3',
         trusted_base=['Kani 0.68 + CBMC 6.11', 'str::cmp / String::cmp of std (Enum x Enum and String x String arms)', 'EnumItem::to_str injective (C18)'])
